@@ -248,6 +248,55 @@ def law_zero_fill(ch):
     ch.mark_nontrivial(dtype != "float64" and created)
 
 
+def law_mixed(ch):
+    """arrays whose blocks differ in dtype (as produced by real + complex
+    addition): zero-filling operations must keep the imaginary parts"""
+    import symmray as sr
+
+    spec = ch.draw(gen.array_specs(
+        ferm=False, syms=ALLSYMS, min_ndim=2, max_ndim=4, max_size=2,
+        dtype="mixed", allow_empty=False), "x")
+    x = gen.build(spec)
+    kinds = {np.asarray(b).dtype.kind for b in x.blocks.values()}
+    if len(kinds) < 2:
+        # build the mixture through the library instead: real + complex
+        return
+    dx = D.dense_of(x)
+    nd = x.ndim
+    perm = list(ch.perm(nd, "perm"))
+    k = ch.integer(2, nd, "k")
+    with warnings.catch_warnings():
+        warnings.simplefilter("error", np.exceptions.ComplexWarning)
+        try:
+            for m in ("insert", "concat", "auto"):
+                f = must(x.fuse, tuple(perm[:k]), mode=m, what=f"fuse[{m}]")
+                u = must(f.unfuse_all, what="unfuse_all")
+                inv = [(perm[:k] + [a for a in range(nd)
+                                    if a not in perm[:k]]).index(a)
+                       for a in range(nd)]
+                pos = min(perm[:k])
+                before = [a for a in range(pos) if a not in perm[:k]]
+                after = [a for a in range(pos, nd) if a not in perm[:k]]
+                order = before + perm[:k] + after
+                back = must(u.transpose, tuple(order.index(a)
+                                               for a in range(nd)),
+                            what="transpose")
+                dense_equal(D.dense_of(back), dx, f"mixed:fuse[{m}]:value",
+                            what="fuse/unfuse round trip of mixed-dtype "
+                                 "blocks")
+            d = must(x.to_dense, what="to_dense")
+            dense_equal(d, dx, "mixed:to_dense:value")
+            r = must(sr.tensordot, x, x.conj(), (perm[:k], perm[:k]),
+                     mode="fused", preserve_array=True, what="tensordot")
+            want = np.tensordot(dx, np.conj(dx), axes=(perm[:k], perm[:k]))
+            rest = [a for a in range(nd) if a not in perm[:k]]
+            ref = [dict(x.indices[a].chargemap) for a in rest] * 2
+            dense_equal(D.dense_of(r, ref=ref), want, "mixed:tensordot:value")
+        except np.exceptions.ComplexWarning as w:
+            raise Discrepancy("mixed:imaginary-part-discarded", str(w))
+    ch.mark_nontrivial(True)
+
+
 LAWS = [
     Law("catalogue", law_catalogue, quick=3000, thorough=50000,
         doc="dtype table over the operation catalogue (1-3 chained ops)"),
@@ -255,4 +304,7 @@ LAWS = [
         doc="to_dense / fill_missing_blocks / fuse (insert, concat) / fused "
             "contraction / reshape on sparse single-precision and complex "
             "data: dtype of every block and exact values"),
+    Law("mixed", law_mixed, quick=800, thorough=10000,
+        doc="blocks of mixed real/complex dtype through fuse (all "
+            "strategies), to_dense, fused contraction: imaginary parts kept"),
 ]
